@@ -107,8 +107,12 @@ def bool_local_edges(body, local, bb, max_steps=8):
     cur = local
     neg = False
     steps = 0
+    first = True
     while bb is not None and steps < max_steps:
         steps += 1
+        # a value that flows through a control-flow merge is no longer the sole input of the branch
+        if len({e.src for e in cfg.pred.get(bb, [])}) > 1:
+            return None
         blk = body.blocks[bb]
         for s in blk.stmts:
             if s.kind != "assign" or not s.lhs.is_local:
